@@ -112,7 +112,7 @@ OtherOp(op) == IF op = "+" THEN "-" ELSE "+"
 (* dateTime / time -> Observation.value[x]; FHIR has no hour or minute precision  *)
 (* and requires an offset on every dateTime with a time part                      *)
 FhirOk(x) == CASE x.t = "date" -> TRUE
-               [] x.t = "dt"   -> x.p <= 3 \/ (x.p >= 6 /\ x.tz)
+               [] x.t = "dt"   -> x.p <= 3 \/ (x.p >= 6 /\ x.tz /\ x.y \in 1700..2200)   \* jsonformat drops the fraction of far years
                [] x.t = "time" -> x.p >= 6
 FhirPath(x) == IF x.t = "date" THEN "Patient.birthDate" ELSE "Observation.value"
 
@@ -268,10 +268,11 @@ ObsClassAr(out, c) ==
   IF sc # "" THEN sc
   ELSE IF ~IsTemporalUnit(c.q.unit) \/ TimeHasNoUnit(c.x, RankOf(c.q.unit))
        THEN (IF ItemSame(out.items[1], c.x) THEN "unchanged" ELSE "other")
-  ELSE IF Is(out, InstantFloor(c.x, c.op, RankOf(c.q.unit), c.q.th)) THEN "instant-floor"
-  ELSE IF ItemSame(out.items[1], c.x) THEN "unchanged"
-  ELSE IF Is(out, MinusOne(c.x)) THEN "minus-one"
-  ELSE "other"
+  ELSE LET a1 == IF Is(out, InstantFloor(c.x, c.op, RankOf(c.q.unit), c.q.th)) THEN "instant-floor" ELSE ""
+           a2 == IF ItemSame(out.items[1], c.x) THEN "unchanged" ELSE IF Is(out, MinusOne(c.x)) THEN "minus-one" ELSE ""
+       IN IF a1 = "" /\ a2 = "" THEN "other"            \* every named reading the result agrees with, joined by "+"
+          ELSE IF a1 # "" /\ a2 # "" THEN a1 \o "+" \o a2
+          ELSE a1 \o a2
 
 ObsClassInv(out, c) ==
   LET sc == ShapeClass(out, c.x) IN
